@@ -1,8 +1,11 @@
 use crate::Outcome;
 use serde_json::Value;
 
+mod c07;
 mod c08;
+mod c10;
 mod c14;
+mod c33;
 mod c20;
 mod strings;
 
@@ -24,6 +27,10 @@ fn run_inner(case: &str, args: &Value) -> Option<Outcome> {
         "c20_merge" => Some(c20::merge(args)),
         "c08_num" | "c08_num_search_maximum" | "c08_num_search_minimum" | "c08_num_search_multiple_of" => Some(c08::num(args)),
         "c08_len" => Some(c08::len(args)),
+        "c07_int" => Some(c07::int(args)),
+        "c10_depth" => Some(c10::depth_case(args)),
+        "c10_directives" => Some(c10::directives_case(args)),
+        "c33_subtype" => Some(c33::subtype(args)),
         "c14_pos" => Some(c14::pos(args)),
         "c15_quoted" => Some(strings::quoted(args)),
         "c17_escape" => Some(strings::escape(args)),
@@ -38,6 +45,9 @@ pub fn search(case: &str, seed: u64, open: &[String]) -> Option<SearchResult> {
         "c08_num_search_minimum" => Box::new(c08::num_inputs("minimum", seed)),
         "c08_num_search_multiple_of" => Box::new(c08::num_inputs("multiple_of", seed)),
         "c08_len" => Box::new(c08::len_inputs(seed)),
+        "c07_int" => Box::new(c07::int_inputs(seed)),
+        "c10_depth" | "c10_directives" => Box::new(c10::doc_inputs(seed)),
+        "c33_subtype" => Box::new(c33::inputs(seed)),
         "c14_pos" => Box::new(c14::pos_inputs(seed)),
         "c15_quoted" | "c17_escape" => Box::new(strings::string_inputs(seed)),
         _ => return None,
